@@ -4,6 +4,7 @@ import (
 	"bufio"
 	"encoding/json"
 	"fmt"
+	"hash/fnv"
 	"math/big"
 	"math/rand"
 	"os"
@@ -148,7 +149,7 @@ func (m *bigMachine) divmod(x, y *big.Int) (k []int, r *big.Int) {
 
 func (m *bigMachine) exec(st bigStep) bigEvent {
 	e := bigEvent{"ev": "step", "op": st.Op, "a": st.A, "b": st.B, "o": st.O, "lvlarg": st.Lvl, "kind": st.Kind, "err": false, "panic": false, "msg": "",
-		"m": [][]int{}, "s": []int{}, "lvl": -1, "deg": -1, "kv": [][]int{}, "ks": []int{}, "ks2": []int{}, "r": []int{}, "cm": []int{}, "v": [][]int{}, "sv": []int{}}
+		"m": [][]int{}, "s": []int{}, "lvl": -1, "deg": -1, "kv": [][]int{}, "ks": []int{}, "ks2": []int{}, "r": []int{}, "cm": []int{}, "v": [][]int{}, "sv": []int{}, "pr": [][]int{}, "so": []int{}}
 	T := m.bs.T
 	var out *bigReg
 	err, pan, msg := guardedBig(func() error {
@@ -236,6 +237,102 @@ func (m *bigMachine) exec(st bigStep) bigEvent {
 					ks2, _ := m.divmod(ct.Scale.BigInt(), neg)
 					e["ks2"] = ks2
 				}
+			}
+		case "MulRelinThenAdd":
+			// out <- out + a * b (the receiver is the register o itself)
+			a, b, o := m.reg[st.A], m.reg[st.B], m.reg[st.O]
+			ct := o.ct.CopyNew()
+			e["so"] = limbs(o.ct.Scale.BigInt())
+			if err := m.eval.MulRelinThenAdd(a.ct, b.ct, ct); err != nil {
+				return err
+			}
+			out = &bigReg{ct: ct}
+			kv, pr := [][]int{}, [][]int{}
+			for i := range a.m {
+				k, v := m.divmod(a.m[i], b.m[i])
+				kv, pr = append(kv, k), append(pr, limbs(v))
+				s := new(big.Int).Add(o.m[i], v)
+				out.m = append(out.m, s.Mod(s, T))
+			}
+			e["kv"], e["pr"] = kv, pr
+			ks, r := m.divmod(a.ct.Scale.BigInt(), b.ct.Scale.BigInt())
+			e["ks"], e["r"] = ks, limbs(r)
+		case "MulPt", "AddPt":
+			a := m.reg[st.A]
+			vals := make([]uint64, m.bs.P.MaxSlots())
+			for i := range vals {
+				vals[i] = m.randT()
+			}
+			tm1 := T.Uint64() - 1
+			vals[0], vals[1] = tm1, 2
+			s := uint64(1)
+			if st.Kind == "rand" {
+				s = 1 + m.rng.Uint64()%tm1
+			}
+			if st.Op == "AddPt" && st.Kind == "same" {
+				s = a.ct.Scale.Uint64()
+			}
+			pt := bgv.NewPlaintext(m.bs.P, a.ct.Level())
+			pt.Scale = rlwe.NewScaleModT(s, T.Uint64())
+			if err := m.ecd.Encode(vals, pt); err != nil {
+				return err
+			}
+			var ct *rlwe.Ciphertext
+			var err error
+			if st.Op == "MulPt" {
+				ct, err = m.eval.MulNew(a.ct, pt)
+			} else {
+				ct, err = m.eval.AddNew(a.ct, pt)
+			}
+			if err != nil {
+				return err
+			}
+			out = &bigReg{ct: ct}
+			v, kv := [][]int{}, [][]int{}
+			for j, i := range m.obs {
+				x := new(big.Int).SetUint64(vals[i])
+				v = append(v, limbs(x))
+				if st.Op == "MulPt" {
+					k, r := m.divmod(a.m[j], x)
+					kv, out.m = append(kv, k), append(out.m, r)
+				} else {
+					r := new(big.Int).Add(a.m[j], x)
+					out.m = append(out.m, r.Mod(r, T))
+				}
+			}
+			e["v"], e["sv"], e["kv"] = v, limbsU(s), kv
+			if st.Op == "MulPt" {
+				ks, _ := m.divmod(a.ct.Scale.BigInt(), new(big.Int).SetUint64(s))
+				e["ks"] = ks
+			}
+		case "AddSc":
+			a := m.reg[st.A]
+			c := new(big.Int)
+			switch st.Kind {
+			case "neg1":
+				c.SetInt64(-1)
+			case "half":
+				c.Rsh(T, 1)
+				c.Add(c, big.NewInt(1))
+			case "negword":
+				c.SetUint64(m.rng.Uint64())
+				c.Neg(c)
+			default:
+				c.SetUint64(m.rng.Uint64())
+				c.Lsh(c, 40)
+				c.Add(c, big.NewInt(77))
+				c.Neg(c)
+			}
+			ct, err := m.eval.AddNew(a.ct, c)
+			if err != nil {
+				return err
+			}
+			cm := new(big.Int).Mod(c, T)
+			e["cm"] = limbs(cm)
+			out = &bigReg{ct: ct}
+			for i := range a.m {
+				r := new(big.Int).Add(a.m[i], cm)
+				out.m = append(out.m, r.Mod(r, T))
 			}
 		case "Relin":
 			a := m.reg[st.A]
@@ -370,10 +467,16 @@ func bigMain(sub string, pset, progs, trace string, seed uint64) int {
 		tr.Must(json.Unmarshal(sc.Bytes(), &steps))
 		pid++
 		m.reg = map[int]*bigReg{}
-		w.Emit(bigEvent{"ev": "new", "prog": pid, "fork": 0})
+		// the values of a program depend on the seed and on its two loads only, so that a program replayed alone (or cut
+		// after the failing step) sees the same numbers
+		h := fnv.New64a()
+		b2, _ := json.Marshal(steps[:min(2, len(steps))])
+		h.Write(b2)
+		m.rng = rand.New(rand.NewSource(int64(seed ^ h.Sum64())))
+		w.Emit(bigEvent{"ev": "new", "prog": pid, "fork": 0, "seed": int(seed)})
 		for i, st := range steps {
 			e := m.exec(st)
-			e["prog"], e["fork"], e["idx"] = pid, 0, i+1
+			e["prog"], e["fork"], e["idx"], e["seed"] = pid, 0, i+1, int(seed)
 			w.Emit(e)
 			if e["err"].(bool) || e["panic"].(bool) {
 				break
